@@ -456,6 +456,72 @@ pub fn panic_signature(p: &str) -> String {
 }
 
 // ------------------------------------------------------------------------------------------------
+// Crash monitor: a fatal signal (abort from a non-unwinding panic / unsafe precondition check,
+// SIGSEGV, SIGBUS, SIGILL, SIGFPE) while a case is running prints which case it was, so that the
+// driver can report it with a replay instead of "the harness died".
+
+thread_local! {
+    static CUR_INDEX: std::cell::Cell<u64> = const { std::cell::Cell::new(u64::MAX) };
+}
+static CUR_STAGE: std::sync::atomic::AtomicPtr<u8> = std::sync::atomic::AtomicPtr::new(std::ptr::null_mut());
+static CUR_STAGE_LEN: std::sync::atomic::AtomicUsize = std::sync::atomic::AtomicUsize::new(0);
+
+#[cfg(not(miri))]
+extern "C" fn crash_handler(sig: libc::c_int) {
+    // async-signal-safe: only write(2) of bytes assembled on the stack
+    let mut buf = [0u8; 200];
+    let mut n = 0usize;
+    let mut put = |s: &[u8]| {
+        for b in s {
+            if n < 199 {
+                buf[n] = *b;
+                n += 1;
+            }
+        }
+    };
+    put(b"\nCRASH-CASE signal=");
+    let mut num = |mut v: u64, put: &mut dyn FnMut(&[u8])| {
+        let mut d = [0u8; 20];
+        let mut k = 20;
+        if v == 0 {
+            k -= 1;
+            d[k] = b'0';
+        }
+        while v > 0 {
+            k -= 1;
+            d[k] = b'0' + (v % 10) as u8;
+            v /= 10;
+        }
+        put(&d[k..]);
+    };
+    num(sig as u64, &mut put);
+    put(b" stage=");
+    let p = CUR_STAGE.load(Ordering::Relaxed);
+    let l = CUR_STAGE_LEN.load(Ordering::Relaxed);
+    if !p.is_null() {
+        put(unsafe { std::slice::from_raw_parts(p, l.min(60)) });
+    }
+    put(b" index=");
+    let idx = CUR_INDEX.try_with(|c| c.get()).unwrap_or(u64::MAX);
+    num(idx, &mut put);
+    put(b"\n");
+    unsafe {
+        libc::write(2, buf.as_ptr() as *const libc::c_void, n);
+        libc::signal(sig, libc::SIG_DFL);
+        libc::raise(sig);
+    }
+}
+
+pub fn install_crash_handler() {
+    #[cfg(not(miri))]
+    unsafe {
+        for s in [libc::SIGABRT, libc::SIGSEGV, libc::SIGBUS, libc::SIGILL, libc::SIGFPE] {
+            libc::signal(s, crash_handler as usize);
+        }
+    }
+}
+
+// ------------------------------------------------------------------------------------------------
 // Case context
 
 pub struct Ctx<'a> {
@@ -528,7 +594,7 @@ pub struct Watch {
 
 /// Run `n` cases of `stage` over worker threads. `f(rng, ctx)` executes one case and reports
 /// through ctx. Panics inside f are caught and reported as violations with a `panic:` signature.
-pub fn run_cases<F>(cfg: &Cfg, stage: &str, n: u64, out: &mut Report, f: F)
+pub fn run_cases<F>(cfg: &Cfg, stage: &'static str, n: u64, out: &mut Report, f: F)
 where
     F: Fn(&mut Rng, &mut Ctx) + Sync,
 {
@@ -541,6 +607,11 @@ where
         cfg.threads.max(1)
     };
     let stage_seed = mix(mix(cfg.seed, hash_str(&cfg.prop)), hash_str(stage));
+    {
+        // stage name for the crash monitor
+        CUR_STAGE_LEN.store(stage.len(), Ordering::Relaxed);
+        CUR_STAGE.store(stage.as_ptr() as *mut u8, Ordering::Relaxed);
+    }
     let t0 = Instant::now();
     let watch = Arc::new(Watch {
         cur: (0..threads).map(|_| AtomicU64::new(0)).collect(),
@@ -612,6 +683,7 @@ where
                     watch.start_ms[w].store(t0.elapsed().as_millis() as u64, Ordering::Relaxed);
                     watch.cur[w].store(this + 1, Ordering::Relaxed);
                     rep.evaluations += 1;
+                    CUR_INDEX.with(|c| c.set(this));
                     IN_CASE.with(|c| c.set(true));
                     let r = {
                         let mut ctx = Ctx {
@@ -624,6 +696,7 @@ where
                         panic::catch_unwind(AssertUnwindSafe(|| f(&mut rng, &mut ctx)))
                     };
                     IN_CASE.with(|c| c.set(false));
+                    CUR_INDEX.with(|c| c.set(u64::MAX));
                     watch.cur[w].store(0, Ordering::Relaxed);
                     if r.is_err() {
                         let p = LAST_PANIC
